@@ -349,6 +349,82 @@ fn main() {
                 panic!("spans that were not recording were delivered: {:?}", delivered);
             }
         }
+        "slow-reporter-first-send" => {
+            // while the reporter is busy inside report(), tracing calls of other threads, including
+            // the first call of a fresh thread (which registers its queue), must not wait for it
+            struct Slow(Arc<std::sync::atomic::AtomicBool>);
+            impl Reporter for Slow {
+                fn report(&mut self, spans: Vec<SpanRecord>) {
+                    if !spans.is_empty() {
+                        self.0.store(true, Ordering::SeqCst);
+                        std::thread::sleep(Duration::from_millis(1500));
+                        self.0.store(false, Ordering::SeqCst);
+                    }
+                }
+            }
+            let busy = Arc::new(std::sync::atomic::AtomicBool::new(false));
+            fastrace::set_reporter(Slow(busy.clone()), Config::default().report_interval(Duration::from_millis(1)));
+            {
+                let r = Span::root("trigger", SpanContext::new(TraceId(1), SpanId(1)));
+                drop(r);
+            }
+            let t = Instant::now();
+            while !busy.load(Ordering::SeqCst) && t.elapsed() < Duration::from_secs(5) {
+                std::thread::sleep(Duration::from_millis(1));
+            }
+            if !busy.load(Ordering::SeqCst) {
+                panic!("the reporter was never called (harness)");
+            }
+            let mut worst = 0u128;
+            for k in 0..4 {
+                let h = std::thread::spawn(move || {
+                    let t = Instant::now();
+                    workload(if k == 0 { "fresh" } else { "fresh-more" }, false);
+                    t.elapsed().as_millis()
+                });
+                worst = worst.max(h.join().unwrap());
+            }
+            let still_busy = busy.load(Ordering::SeqCst);
+            extra = json!({"worst_fresh_thread_workload_ms": worst as u64, "reporter_still_in_report": still_busy});
+            if worst > 700 {
+                panic!("tracing calls of a fresh thread took {} ms while the reporter was inside report(): they waited for the collector", worst);
+            }
+        }
+        "reporter-traces" => {
+            // a reporter that itself uses the tracing API (e.g. through a fastrace-aware logger)
+            struct Tracing(Arc<AtomicUsize>);
+            impl Reporter for Tracing {
+                fn report(&mut self, spans: Vec<SpanRecord>) {
+                    let r = Span::root("inside-report", SpanContext::new(TraceId(0xabc), SpanId(1)));
+                    let _g = r.set_local_parent();
+                    let _l = LocalSpan::enter_with_local_parent("l");
+                    LocalSpan::add_event(Event::new("e"));
+                    r.add_property(|| ("n", "v"));
+                    self.0.fetch_add(1, Ordering::SeqCst);
+                    let _ = spans;
+                }
+            }
+            let calls = Arc::new(AtomicUsize::new(0));
+            fastrace::set_reporter(Tracing(calls.clone()), Config::default().report_interval(Duration::from_millis(2)));
+            let t = Instant::now();
+            while calls.load(Ordering::SeqCst) < 5 && t.elapsed() < Duration::from_secs(10) {
+                workload("outer", false);
+                std::thread::sleep(Duration::from_millis(2));
+            }
+            let n = calls.load(Ordering::SeqCst);
+            extra = json!({"report_calls": n});
+            if n < 5 {
+                panic!("only {} report() calls completed in 10 s with a reporter that traces: the collector is stuck", n);
+            }
+            let (tx, rx) = std::sync::mpsc::channel();
+            std::thread::spawn(move || {
+                fastrace::flush();
+                let _ = tx.send(());
+            });
+            if rx.recv_timeout(Duration::from_secs(10)).is_err() {
+                panic!("flush() did not return within 10 s with a reporter that traces");
+            }
+        }
         "deep-scopes" => {
             let _r = install(false);
             deep_scopes(4200);
